@@ -682,3 +682,89 @@ Proof.
     rewrite <- (firstn_skipn j (remove_nth i ss)) at 1. rewrite defs_app.
     apply Permutation_middle.
 Qed.
+
+(* ------------------------------------------------------------------ every definition is forced at the end *)
+Lemma defs_forced ss : defs_of (forced ss) = [].
+Proof. unfold forced. induction (defs_of ss); simpl; auto. Qed.
+
+Lemma uses_forced ss : uses_of (forced ss) = map (fun nd => Sym (fst nd)) (defs_of ss).
+Proof. unfold forced. induction (defs_of ss); simpl; auto. f_equal. auto. Qed.
+
+Lemma defs_close ss : defs_of (close ss) = defs_of ss.
+Proof. unfold close. rewrite defs_app, defs_forced, app_nil_r. reflexivity. Qed.
+
+Lemma uses_close ss : uses_of (close ss) = uses_of ss ++ map (fun nd => Sym (fst nd)) (defs_of ss).
+Proof. unfold close. rewrite uses_app, uses_forced. reflexivity. Qed.
+
+Lemma stmts_height_app a b : stmts_height (a ++ b) = Nat.max (stmts_height a) (stmts_height b).
+Proof. induction a as [|[n d|e] r IH]; simpl; auto; rewrite IH; lia. Qed.
+
+Lemma run_bound_close ss : run_bound (close ss) = run_bound ss.
+Proof.
+  unfold run_bound. rewrite defs_close. unfold close. rewrite stmts_height_app.
+  assert (H : stmts_height (forced ss) = 0%nat).
+  { unfold forced. induction (defs_of ss); simpl; auto. }
+  rewrite H, Nat.max_0_r. reflexivity.
+Qed.
+
+Lemma res_equiv_fail a b : res_equiv a b -> is_fail a = is_fail b.
+Proof. destruct a, b; simpl; tauto. Qed.
+
+Lemma Forall2_equiv_fails l1 : forall l2, Forall2 res_equiv l1 l2 -> existsb is_fail l1 = existsb is_fail l2.
+Proof.
+  induction l1; intros l2 F; inversion F; subst; simpl; auto. rewrite (res_equiv_fail _ _ H1). f_equal. auto.
+Qed.
+
+Lemma existsb_perm {A} (f : A -> bool) l l' : Permutation l l' -> existsb f l = existsb f l'.
+Proof.
+  induction 1; simpl; auto.
+  - rewrite IHPermutation. reflexivity.
+  - destruct (f x), (f y); reflexivity.
+  - congruence.
+Qed.
+
+(* moving / permuting definitions: the same values for the uses, and the same success or failure of the build even
+   when the failing definition is not used by anything *)
+Lemma build_fails_reorder (ss ss' : list stmt) (f f' : nat) :
+  NoDup (map fst (defs_of ss)) ->
+  Permutation (defs_of ss) (defs_of ss') -> uses_of ss' = uses_of ss ->
+  (run_bound ss <= f)%nat -> (run_bound ss' <= f')%nat ->
+  build_fails f' ss' = build_fails f ss.
+Proof.
+  intros ND P U L L'.
+  assert (ND' : NoDup (map fst (defs_of ss'))).
+  { eapply Permutation_NoDup; [|exact ND]. apply Permutation_map. exact P. }
+  unfold build_fails.
+  rewrite (Forall2_equiv_fails _ _ (lazy_refines_final_lemma (close ss') f' ltac:(rewrite defs_close; exact ND') ltac:(rewrite run_bound_close; exact L'))).
+  rewrite (Forall2_equiv_fails _ _ (lazy_refines_final_lemma (close ss) f ltac:(rewrite defs_close; exact ND) ltac:(rewrite run_bound_close; exact L))).
+  unfold final_run. rewrite !defs_close, !uses_close, U, !map_app, !existsb_app.
+  assert (X : forall e, (fuel_bound (defs_of ss) e <= f)%nat -> (fuel_bound (defs_of ss') e <= f')%nat ->
+              eval f' (defs_of ss') [] e = eval f (defs_of ss) [] e).
+  { intros e B B'. apply order_independent_lemma; auto. }
+  assert (HB : forall e, (height e <= stmts_height ss)%nat -> (fuel_bound (defs_of ss) e <= f)%nat).
+  { intros e He. unfold fuel_bound. unfold run_bound in L. pose proof (stmts_height_defs ss).
+    assert (Nat.max (max_height (defs_of ss)) (height e) <= stmts_height ss)%nat by lia. nia. }
+  assert (SH : stmts_height ss' = stmts_height ss \/ True) by auto.
+  assert (HB' : forall e, (height e <= stmts_height ss')%nat -> (fuel_bound (defs_of ss') e <= f')%nat).
+  { intros e He. unfold fuel_bound. unfold run_bound in L'. pose proof (stmts_height_defs ss').
+    assert (Nat.max (max_height (defs_of ss')) (height e) <= stmts_height ss')%nat by lia. nia. }
+  f_equal.
+  - f_equal. apply map_ext_in. intros e I. apply X.
+    + apply HB. apply in_uses_height. exact I.
+    + apply HB'. apply in_uses_height. rewrite U. exact I.
+  - rewrite !map_map.
+    rewrite (existsb_perm _ _ _ (Permutation_map (fun nd => eval f' (defs_of ss') [] (Sym (fst nd))) (Permutation_sym P))).
+    f_equal. apply map_ext_in. intros [n d] I. simpl. apply X.
+    + apply HB. simpl. lia.
+    + apply HB'. simpl. lia.
+Qed.
+
+Lemma move_def_run (ss : list stmt) (i j f f' : nat) :
+  NoDup (map fst (defs_of ss)) -> (run_bound ss <= f)%nat -> (run_bound (move_def ss i j) <= f')%nat ->
+  Forall2 res_equiv (lazy_run f' (move_def ss i j)) (lazy_run f ss) /\
+  build_fails f' (move_def ss i j) = build_fails f ss.
+Proof.
+  intros ND L L'. destruct (move_def_ok ss i j) as [U P]. split.
+  - apply reorder_lemma; auto.
+  - apply build_fails_reorder; auto.
+Qed.
